@@ -58,6 +58,7 @@ THEOREMS = [
     "FaxVerif.C10.column_addOne_typed",
     "FaxVerif.C10.column_eqConst_typed",
     "FaxVerif.C10.deref_var_typed",
+    "FaxVerif.C10.accepts_iff",
     "FaxVerif.C10.tree_type_pointer_counterexample",
     "FaxVerif.C10.enum_qualified",
     "FaxVerif.C10.enum_first_definition_wins",
@@ -1065,10 +1066,10 @@ def judge_pipeline(ctx, stream: str, cases: List[Dict[str, Any]], compile_all: b
         model_errs = [mc["err"] for mc in mcols if "err" in mc]
         if "err" in r:
             ctx.count("pipe-impl:" + r["err"])
-            if not model_errs:
+            if all(mc.get("must_accept", False) for mc in mcols):
                 ctx.violation(key="pipe:" + key, what=f"a query over declared signatures is refused ({r['err']}: {r.get('msg', '')[:120]}) although every call in it is declared or allowed",
                               case=_replay_case(c), observed=r, how=HOW_PIPE)
-            elif not any(r["err"] in MODEL_ERR.get(e, {e}) for e in model_errs):
+            elif not model_errs or not any(r["err"] in MODEL_ERR.get(e, {e}) for e in model_errs):
                 ctx.disagreement("pipeline-error-kind", _replay_case(c), model_errs, r["err"])
             continue
         ctx.count("pipe-impl:ok")
@@ -1451,7 +1452,9 @@ def replay(ctx, rep) -> int:
     if "err" in r:
         print("implementation raised:", r)
         m = ctx.driver(DRIVER, model_reqs(case))[0]
-        return 1 if all("ok" in mc for mc in m.get("cols", [])) else 0
+        must = all(mc.get("must_accept", False) for mc in m.get("cols", []))
+        print("the property obliges the translator to accept this query:", must)
+        return 1 if must else 0
     print("\n".join(r["query"]))
     print("class variables:", r["class_decl"])
     print("warnings:", r["fallbacks"])
